@@ -1043,7 +1043,10 @@ class ConnectionHub(object):
         try:
             try:
                 value = func(*args, **kw)
-            except Exception:
+            except BaseException:
+                # also KeyboardInterrupt, SystemExit, GeneratorExit: the
+                # transaction must not stay open (holding locks) until
+                # the exception object is garbage collected
                 conn.rollback()
                 raise
             else:
